@@ -16,12 +16,12 @@ MCInit == Init /\ Cardinality(slow) <= MaxSlow /\ rleader = "a"
 
 Keep == nT' = nT /\ nC' = nC /\ taint' = taint
 
-MCStart(r, s, op, x) ==
+MCStart(r, s, op, x, to) ==
   /\ op \in OpSet /\ Len(log) < MaxLog
   /\ \A q \in 1..(r - 1) : \E i \in Ids : inst[i].r = q        \* requests are numbered in order
-  /\ DoStart(r, s, op, x) /\ Keep
-  /\ last' = [a |-> "Start", r |-> r, s |-> s, op |-> op, x |-> x]
-MCHandle(i) == DoHandle(i) /\ Keep /\ last' = [a |-> "Handle", i |-> i]
+  /\ DoStart(r, s, op, x, to) /\ Keep
+  /\ last' = [a |-> "Start", r |-> r, s |-> s, op |-> op, x |-> x, to |-> to]
+MCHandle(i, to) == DoHandle(i, to) /\ Keep /\ last' = [a |-> "Handle", i |-> i, to |-> to]
 MCLock(i) == DoLock(i) /\ Keep /\ last' = [a |-> "Lock", i |-> i]
 MCPropose(i, x) ==
   /\ DoPropose(i, x) /\ nT' = nT /\ nC' = nC
@@ -38,8 +38,8 @@ MCAcquired(s) == DoAcquired(s) /\ Keep /\ last' = [a |-> "Acquired", s |-> s]
 XArgs == Servers \cup {"-"}
 
 MCNext ==
-  \/ \E r \in 1..MaxReq, s \in Servers, op \in Ops, x \in XArgs : MCStart(r, s, op, x)
-  \/ \E i \in Ids : MCHandle(i)
+  \/ \E r \in 1..MaxReq, s \in Servers, op \in Ops, x \in XArgs, to \in XArgs : MCStart(r, s, op, x, to)
+  \/ \E i \in Ids, to \in XArgs : MCHandle(i, to)
   \/ \E i \in Ids : MCLock(i)
   \/ \E i \in Ids, x \in XArgs : MCPropose(i, x)
   \/ \E s \in Servers : MCApply(s)
